@@ -4,6 +4,7 @@ import (
 	"fmt"
 	"go/token"
 	"go/types"
+	"os"
 	"sort"
 	"strings"
 
@@ -113,6 +114,13 @@ func (f *Frame) storeTarget(li *loopInfo, a ssa.Value, ms *modSet) {
 			} else {
 				ms.addTarget(fieldComp(so, fi.Name), ArraySort(SInt, fi.Sort), base.T)
 			}
+			return
+		} else if ok && base.Loc != nil {
+			// a field of a struct that lives in a local variable (or inside another
+			// location): the whole location is modified.  (This case used to fall through
+			// to the heap component of the field's struct type and left the local
+			// untouched: the loop then could not be left and what followed was vacuous.)
+			f.modViaPointer(base, st, ms)
 			return
 		}
 		if inner, ok := x.X.(*ssa.IndexAddr); ok {
@@ -791,6 +799,19 @@ func (w *World) VerifyFunc(fn *ssa.Function) *VC {
 			cov := vc.Oblige(label, "cover", "exit", True, pc, "the normal exit is reachable")
 			cov.Negate = true
 			cov.Trivial = false
+		}
+		// self-audit (GOVC_COVER_EXITS=1, not part of the registered checks): every single
+		// exit should be reachable; an unreachable one is dead code or a vacuous path
+		if os.Getenv("GOVC_COVER_EXITS") != "" && len(exits) > 1 {
+			for i, ex := range exits {
+				kind := "exit"
+				if isPanic {
+					kind = "panicexit"
+				}
+				cov := vc.Oblige(label, "cover", fmt.Sprintf("%s/%d", kind, i), True, ex.PC, "exit path is reachable")
+				cov.Negate = true
+				cov.Trivial = false
+			}
 		}
 		post := &SpecEnv{W: w, Vars: map[string]SVal{}, Heap: h, Old: heap, Scope: fc.ScopePkg, Side: vc,
 			Normal: BoolLit(!isPanic), Panics: BoolLit(isPanic), PV: pv}
